@@ -65,7 +65,7 @@ struct Run
 	std::vector<std::unique_ptr<udp::socket>> udps; // one per node, port 5300
 	std::vector<std::vector<unsigned char>> udp_bufs; std::vector<std::unique_ptr<udp::endpoint>> udp_from;
 	std::map<int, int> port_node; // local port -> node (for canonical names)
-	bool saw_two_queued = false, saw_accept_after_syn = false, saw_nat = false, saw_refusal = false, saw_overload2 = false, saw_nat_synack = false, saw_shared_ext = false, saw_reaccept = false, saw_v6_beside_nat = false, saw_bound_not_listening = false;
+	bool saw_two_queued = false, saw_accept_after_syn = false, saw_nat = false, saw_refusal = false, saw_overload2 = false, saw_nat_synack = false, saw_shared_ext = false, saw_reaccept = false, saw_v6_beside_nat = false, saw_bound_not_listening = false, saw_double_nat_udp = false;
 	void fail(std::string m) { if (err.empty()) err = std::move(m); }
 	void tr(std::string s) { trace.push_back(fmt("t=%lld ", now_ns()) + s); }
 
@@ -161,7 +161,7 @@ std::string run_world(Case const& c, Ctx& ctx, bool strip_nat, std::vector<std::
 	topo.faults.clear();
 	for (auto& n : topo.nodes) { n.qout.clear(); n.qin.clear(); }
 	bool any_nat = false;
-	for (auto& n : topo.nodes) { if (n.nat_ext >= 0) any_nat = true; if (strip_nat) n.nat_ext = -1; }
+	for (auto& n : topo.nodes) { if (n.nat_ext >= 0) any_nat = true; if (strip_nat) { n.nat_ext = -1; n.nat_ext2 = -1; } }
 	{
 		// a network with some latency and no loss (C07/C13 are about identity, not loss)
 		bool ok = false;
@@ -226,6 +226,7 @@ std::string run_world(Case const& c, Ctx& ctx, bool strip_nat, std::vector<std::
 					if (f.address() != expect || f.port() != 5300)
 						R.fail(fmt("UDP datagram from node %d (bound %s:5300%s) was reported with sender %s:%d, expected %s:5300", src, w.addr(src).to_string().c_str(), w.topo.nodes[std::size_t(src)].nat_ext >= 0 ? ", behind a NAT" : "", f.address().to_string().c_str(), f.port(), expect.to_string().c_str()));
 					if (w.topo.nodes[std::size_t(src)].nat_ext >= 0) R.saw_nat = true;
+					if (w.topo.nodes[std::size_t(src)].nat_ext >= 0 && w.topo.nodes[std::size_t(src)].nat_ext2 >= 0 && w.addr(src).is_v4()) R.saw_double_nat_udp = true;
 				}
 				udp_rx(n);
 			});
@@ -291,7 +292,8 @@ std::string run_world(Case const& c, Ctx& ctx, bool strip_nat, std::vector<std::
 						Run::Cli& C = R.cli[who];
 						int const cnode = R.cspec[who].node;
 						boost::system::error_code e3; tcp::endpoint cle = C.side->s->local_endpoint(e3);
-						address const vis = (R.w->topo.nodes[std::size_t(cnode)].nat_ext >= 0 && cle.address().is_v4()) ? Topology::nat_addr(R.w->topo.nodes[std::size_t(cnode)].nat_ext) : cle.address();
+						address vis = cle.address();
+						{ auto av = R.w->topo.addrs_of(cnode); for (std::size_t k2 = 0; k2 < av.size(); ++k2) if (av[k2] == cle.address()) vis = R.w->visible_addr(cnode, int(k2)); }
 						if (!e3 && (re.address() != vis || re.port() != cle.port()))
 							R.fail(fmt("accepted socket's remote_endpoint() is %s:%d; the connector's local endpoint is %s:%d%s, so %s:%d was expected", re.address().to_string().c_str(), re.port(), cle.address().to_string().c_str(), cle.port()
 								, R.w->topo.nodes[std::size_t(cnode)].nat_ext >= 0 ? " behind a NAT" : "", vis.to_string().c_str(), cle.port()));
@@ -527,6 +529,7 @@ std::string run_world(Case const& c, Ctx& ctx, bool strip_nat, std::vector<std::
 	if (R.saw_reaccept) sum.labels["reaccept_into_reused_socket"] = 1;
 	if (R.saw_v6_beside_nat) sum.labels["ipv6_connection_from_a_node_whose_ipv4_is_natted"] = 1;
 	if (R.saw_bound_not_listening) sum.labels["acceptor_bound_but_not_listening"] = 1;
+	if (R.saw_double_nat_udp) sum.labels["udp_through_two_nats"] = 1;
 	sum.nontrivial07 = R.saw_two_queued || R.saw_nat || R.saw_refusal || R.saw_overload2;
 	sum.nontrivial13 = any_nat && (R.saw_nat_synack || R.saw_shared_ext) && R.saw_nat;
 	return err;
@@ -588,6 +591,8 @@ rc::Gen<Case> gen_case(bool c13, int maxops)
 			long long natmask = std::get<2>(t);
 			if (c13 && natmask == 0) natmask = 5;
 			for (long long i = 0; i < nn; ++i) if ((natmask >> i) & 1) c.recs.push_back(mk("nat", {i, std::get<3>(t) ? 0 : i % 2}));
+			// every other NATted node sits behind a second, outer NAT as well
+			for (long long i = 0; i < nn; ++i) if (((natmask >> i) & 1) && (i + std::get<7>(t) / 1000) % 2 == 0) c.recs.push_back(mk("nat2", {i, (i + 1) % 3}));
 			c.recs.push_back(mk("qnet", {-1, -1, 0, std::get<7>(t), 0}));
 			// per-pair path MTUs (the fallback stays 1475): segment sizes then depend on which addresses the library asks about
 			{ auto const& ms = std::get<8>(t); for (std::size_t i = 0; i < ms.size() && i < 4; ++i) if (ms[i][0] != ms[i][1] && ms[i][0] < nn && ms[i][1] < nn) c.recs.push_back(mk("mtu", {ms[i][0], ms[i][1], ms[i][2]})); }
